@@ -15,7 +15,7 @@ RULE = (
     "Flavour {threaded: threading.Timer replaced by a harness-fired fake; asyncio: own event loop, "
     "asyncio.sleep inside mysensors.task replaced by a harness-resolved future, inline executor} x {json, pickle} "
     "x Hypothesis-generated states. Sequence: initial save, state change, FAULTY scheduled attempt, state change, "
-    "clean attempt. The faulty attempt is enumerated exhaustively per state: every file operation of the save "
+    "clean attempt; and: the first save of a NEW process (good file of the previous run + an older stale backup next to it) with every operation failing. The faulty attempt is enumerated exhaustively per state: every file operation of the save "
     "failing with OSError, every permission pre-check answering 'not writable', and every k-th call of the JSON encoder hook / Sensor.__getstate__ at which a "
     "concurrent message (adds a node / a child / a value, or is the wake-up announcement of a smart-sleep node that has an uncovered child) is processed. Oracle: after the faulty attempt a fresh "
     "load yields the previously saved state or a complete newer one (never partial); 'not marked unsaved' implies "
@@ -357,6 +357,70 @@ def _scenario(case, fault, stats=None, tmp=None):
         life.close()
 
 
+def scenario_initial(case, k, stats=None, tmp=None):
+    """The faulty attempt is the FIRST save of a new process: a previous run left a good file, and next to it an
+    older backup survived from an interrupted save before that. start_persistence() loads the file and saves at
+    once; operation k of that save fails. The good file must still be what a restart loads."""
+    cwd = os.getcwd()
+    try:
+        version, ext, flavour = case["version"], case["ext"], case["flavour"]
+        path = os.path.join(tmp, f"net.{ext}")
+        persist.restore(tmp, {})
+        where = f"[{flavour}, {ext}, first save of a new process, stale backup present, fault=('oserror', {k})]"
+        full_case = dict(case, fault=["initial", k])
+        # an older run, then the last run of the previous process (their files: stale backup, good main)
+        with persist.TimerPatch() as fake:
+            old = persist.Lifetime(fake, version, path)
+            for text in case["state"][:2]:
+                old.driver.line(text)
+            old.stop()
+            stale = open(path, "rb").read()
+            os.remove(path)
+            last = persist.Lifetime(fake, version, path)
+            for text in case["state"]:
+                last.driver.line(text)
+            last.stop()
+        s_prev = drive.typed(drive.projection(persist.fresh_load(version, path).gw))
+        with open(path + ".bak", "wb") as fh:
+            fh.write(stale)
+        life = make(flavour, version, path)
+        try:
+            plan = faultfs.FaultPlan(k, "fail")
+            with faultfs.Layer(plan) as layer:
+                try:
+                    life.start()
+                except OSError as exc:
+                    # the injected failure may reach the caller of start_persistence(); what matters (as for a
+                    # scheduled attempt) is that the schedule lives on - checked below
+                    if "injected failure" not in str(exc):
+                        raise Violation(f"start_raises.{flavour}", full_case, f"{where}: start_persistence raised {type(exc).__name__}: {exc}") from exc
+                    if flavour == "asyncio":
+                        life.save_task = life._task()  # pylint: disable=protected-access
+                except Exception as exc:  # pylint: disable=broad-except
+                    raise Violation(f"start_raises.{flavour}", full_case, f"{where}: start_persistence raised {type(exc).__name__}: {exc}") from exc
+            if not plan.fired:
+                return len(layer.trace), False
+            on_disk = load_or_violation(version, path, full_case, where, "after the faulty first save")
+            current = drive.typed(drive.projection(life.gw))
+            if on_disk not in (s_prev, current):
+                raise Violation(f"partial_state_on_disk.{ext}", full_case, f"{where}: a restart would load a state that is neither the last saved nor the current one: {first_diff(s_prev, on_disk)}")
+            if not life.armed():
+                raise Violation(f"schedule_stops.{flavour}", full_case, f"{where}: after the faulty first save no further save is scheduled")
+            life.line(case["change2"])
+            escaped = life.attempt()
+            if escaped is not None:
+                raise Violation(f"clean_attempt_fails.{flavour}", full_case, f"{where}: the next fault-free attempt raised/was not armed: {escaped!r}")
+            current = drive.typed(drive.projection(life.gw))
+            on_disk = load_or_violation(version, path, full_case, where, "after the clean attempt")
+            if on_disk != current:
+                raise Violation(f"not_healed.{ext}", full_case, f"{where}: after the next successful attempt the file is not the then-current state: {first_diff(current, on_disk)}")
+            return len(layer.trace), True
+        finally:
+            life.close()
+    finally:
+        os.chdir(cwd)
+
+
 def load_or_violation(version, path, case, where, when):
     try:
         return drive.typed(drive.projection(persist.fresh_load(version, path).gw))
@@ -377,8 +441,21 @@ def check_case(case, stats=None, only=None, collect=None):
                 return 0, True
             return res
 
+        def run_initial(k):
+            try:
+                return scenario_initial(case, k, stats, tmp)
+            except Violation as v:
+                if collect is None:
+                    raise
+                if len(collect) < 25:
+                    collect.append(v)
+                return 0, True
+
         if only is not None:
-            run(tuple(only))
+            if only[0] == "initial":
+                run_initial(only[1])
+            else:
+                run(tuple(only))
             return
         n_ops, _ = run(("none",))
         if stats is not None:
@@ -394,6 +471,12 @@ def check_case(case, stats=None, only=None, collect=None):
             _, fired = run(("denied", k))
             if stats is not None and fired:
                 stats.case(f"{key}:denied:{k}", {"flavour": case["flavour"], "ext": case["ext"], "fault": ["denied", k]}, labels=(case["flavour"], case["ext"], "permission-denied"))
+        if case.get("shape") != "bare":
+            n_first, _ = run_initial(10 ** 6)  # no fault: just count the operations of the first save
+            for k in range(n_first):
+                _, fired = run_initial(k)
+                if stats is not None and fired:
+                    stats.case(f"{key}:initial:{k}", {"flavour": case["flavour"], "ext": case["ext"], "fault": ["initial", k]} if k % 29 == 0 else None, labels=(case["flavour"], case["ext"], "first-save-with-stale-backup"))
         for line in CONCURRENT + ([case["wake"]] if case.get("wake") else []):
             k = 0
             while True:
